@@ -59,6 +59,9 @@ func (h *QuorumHandler) SyncGenesisHeader(ns *native.NativeService) error {
 		return fmt.Errorf("QuorumHandler SyncGenesisHeader, failed to ExtractIstanbulExtra: %v", err)
 	}
 
+	if _, err := GetCurrentValHeight(ns, params.ChainID); err == nil {
+		return fmt.Errorf("QuorumHandler SyncGenesisHeader, genesis header had been initialized")
+	}
 	putValSet(ns, params.ChainID, header.Number.Uint64(), extra.Validators)
 	return nil
 }
